@@ -25,7 +25,7 @@ import traceback
 from collections import Counter
 
 VERIF_DIR = os.path.dirname(os.path.dirname(os.path.abspath(__file__)))
-REPLAY_DIR = os.path.join(VERIF_DIR, "replays")
+REPLAY_DIR = os.environ.get("VERIF_REPLAY_DIR") or os.path.join(VERIF_DIR, "replays")
 EVIDENCE_DIR = os.path.join(VERIF_DIR, "evidence")
 KNOWN_FILE = os.path.join(VERIF_DIR, "known_findings.json")
 
